@@ -89,7 +89,7 @@ def run_worker(cfg, scenarios, workdir, name, timeout=None, binary="worker"):
     trace = os.path.join(workdir, name + ".trace.ndjson")
     open(trace, "w").close()
     # (scenarios that wait in real time - sleep, waitunban, ripen - get that time on top)
-    waits = sum(x.get("count", 0) for sc in scenarios for stp in sc.get("steps", []) for x in stp.get("stim", []) if x.get("op") in ("sleep", "waitunban"))
+    waits = sum(x.get("count", 0) for sc in scenarios for stp in sc.get("steps", []) for x in stp.get("stim", []) if x.get("op") in ("sleep", "waitunban", "waitidle"))
     waits += 2000 * sum(1 for sc in scenarios for stp in sc.get("steps", []) for x in stp.get("stim", []) if x.get("op") in ("ripen", "authfile"))
     timeout = timeout or (60 + len(scenarios) // 5 + waits // 1000)
     done = 0
